@@ -4,13 +4,24 @@ CHECK = {
              "transporting its events, run one at a time under a cooperative scheduler; scheduling points = "
              "CELERITAS_VERIF hooks (before every begin-run/step action, around the lazy StreamStore "
              "allocation, inside host atomic read-modify-writes; per-thread budgets on the hot ones) and "
-             "every pthread mutex lock/unlock (interposed); ALL schedules with <= B preemptions (quick 1, "
-             "thorough 2) for every assignment of 3 events to the streams that uses >= 2 streams, x "
-             "{recorder+diagnostics, calorimeter+diagnostics with charge-partitioned initialisation, recorder with track re-indexing by particle type}; oracle = serial single-stream results. "
+             "every pthread mutex lock/unlock (interposed); ALL schedules with <= B preemptions (quick: B=1; "
+             "thorough: B=2 with the quick budgets for the two-thread roots, and B=1 with doubled budgets for "
+             "all roots) for every assignment of 3 events to the streams that uses >= 2 streams, x "
+             "six variants {rec: recorder+diagnostics; calo: SimpleCalo+diagnostics with charge-partitioned "
+             "initialisation; recsort: recorder with track re-indexing by particle type; recsortact: "
+             "re-indexing by along-step and step-limit action; recfield: uniform-field + Urban-MSC "
+             "along-step; recchk: StatusChecker attached}; the atomic read-modify-writes executed inside "
+             "ActionDiagnostic / StepDiagnostic / the post-step gather (SimpleCalo) have their own "
+             "per-thread budgets, separate from the thread-private atomics (track-id counter, secondary "
+             "stack); oracle = serial single-stream results. "
              "part tsan: every assignment of 3 events to 2 streams (8) and to 3 streams (27), plus one "
-             "event per stream for 4, 8 and 16 streams, x three variants (recorder + diagnostics; "
-             "SimpleCalo + diagnostics + init_charge; recorder + reindex_particle_type), each repeated with free-running threads that construct their "
-             "Steppers concurrently on one shared CoreParams, under ThreadSanitizer. "
+             "event per stream for 4, 8 and 16 streams (identity assignment and rotated by one), x the same "
+             "six variants (quick: the three newer variants run only the 6 three-stream assignments "
+             "that keep all streams busy; 4 streams identity + rotated, 8 identity, 16 rotated), each repeated with free-running threads that construct their "
+             "Steppers concurrently on one shared CoreParams, under ThreadSanitizer; the threads rendezvous at every begin-run action and at their first 32 "
+             "step actions (CELERITAS_VERIF hooks) so that the same action of the shared registry really "
+             "runs side by side on all streams even on a busy machine. celer-sim's "
+             "Runner/Transporter are modelled by this pattern, not executed. "
              "non-trivial = a distinct (variant, stream count, assignment)."),
     "assumptions": [
         "the free-running pass samples OS schedules (ThreadSanitizer detects races on the accesses that "
@@ -18,14 +29,15 @@ CHECK = {
         "part",
         "memory orderings weaker than sequential consistency are not modelled",
     ],
-    "bounds": {"quick": {"preemptions": 1, "tsan_repetitions": 2},
-               "thorough": {"preemptions": 2, "tsan_repetitions": 10}},
+    "bounds": {"quick": {"preemptions": 1, "tsan_repetitions": 1},
+               "thorough": {"preemptions": "2 (T=2, small budgets) + 1 (T=2,3, doubled budgets)",
+                            "tsan_repetitions": 5}},
     "parts": [
         {"name": "sched", "harness": "c07_sched", "flavour": "rel",
          "shards": {"quick": 16, "thorough": 16}, "deadline": {"quick": 100, "thorough": 1200},
          "ldflags": ["-ldl"]},
         {"name": "tsan", "harness": "c07_streams", "flavour": "tsan",
-         "shards": {"quick": 8, "thorough": 8}, "deadline": {"quick": 150, "thorough": 1200},
+         "shards": {"quick": 16, "thorough": 16}, "deadline": {"quick": 240, "thorough": 1200},
          "env": {"TSAN_OPTIONS": "halt_on_error=0 report_signal_unsafe=0 second_deadlock_stack=1 "
                                  "log_path=tsan_report history_size=4 exitcode=0"}},
     ],
